@@ -40,6 +40,7 @@ def run(ck):
     ck.rule('R17.7', 'stored indices are the push positions in the vector the reader indexes')
     ck.rule('R17.8', 'common base: ancestor-or-self of self from which other derives')
     ck.rule('R17.9', 'an unresolvable (dangling) super class does not hide what the other super classes provide')
+    ck.rule('R17.10', 'class identity: Eq and Hash of the data reference agree and are by address')
 
     # ---- R17.1 ---------------------------------------------------------------------
     nx = next((f for f in L.fn_list if f['path'].startswith('<typemap::class::BaseClasses') and f['name'] == 'next'), None)
@@ -75,8 +76,14 @@ def run(ck):
                 ins = next(x for anc in H.ancestors(nx, p) for x in H.calls_in(anc.get('guard') or anc.get('c') or {'k': 'x'}) if x.get('m') == 'insert')
                 a = H.root_local(ins['args'][0])
                 b = H.root_local(p['args'][0])
-                ck.ob('R17.1', 'visited-key-is-the-queued-class|%d' % (i + 1), a is not None and b is not None and a.get('hid') == b.get('hid'), L.loc(p),
-                      'visited.insert(%s) / push_back(%s)' % (pp(ins['args'][0], maxlen=20), pp(p['args'][0], maxlen=30)))
+                arg = H.strip_refs(ins['args'][0])
+                while arg.get('k') == 'MCall' and arg.get('m') in ('clone', 'to_owned', 'borrow', 'as_ref', 'deref'):
+                    arg = H.strip_refs(arg['recv'])
+                whole = arg.get('k') == 'Path' and arg.get('res') == 'local' and 'typemap::class::Class<' in (L.ty(ins['args'][0]) or '')
+                ck.ob('R17.1', 'visited-key-is-the-queued-class|%d' % (i + 1), a is not None and b is not None and a.get('hid') == b.get('hid') and whole, L.loc(p),
+                      'visited.insert(%s) / push_back(%s): the visited set holds the class itself' % (pp(ins['args'][0], maxlen=20), pp(p['args'][0], maxlen=30)) if whole else
+                      'visited.insert(%s) keys the visited set by a projection of the class (type %s), not by the class: two different classes with the same projection (same unqualified name in two modules) '
+                      'shadow each other and the ancestors of the second are never walked' % (pp(ins['args'][0], maxlen=40), (L.ty(ins['args'][0]) or '?')[:40]))
         pops = [c for c in H.calls_in(nx['body']) if c.get('m') in ('pop_front',) and any(x.get('f') == 'pending' for x in walk(c['recv']))]
         loops = [n for n in walk(nx['body']) if n.get('k') == 'Loop']
         ok = len(pops) == 1 and len(loops) == 1 and any(x is pops[0] for x in walk(loops[0]))
@@ -378,3 +385,22 @@ def run(ck):
         ck.ob('R17.9', 'matching-item-ends-search-others-continue|%s' % short(path), all(c[2] for c in cases), L.loc(fm),
               '; '.join('%r -> %r' % (c[0], c[1]) for c in cases), fn=fn['path'])
     ck.floor('R17.9', n9, 2, 'find_map walks over base_classes()')
+
+    # ---- R17.10 identity of classes (what the visited set, `self == base` and `&c == base` rely on) -------------------------------
+    eqf = next((f for f in L.fn_list if 'typemap::util::TypeDataRef' in f['path'] and f['name'] == 'eq' and f.get('impl_trait', '').endswith('PartialEq')), None)
+    hsf = next((f for f in L.fn_list if 'typemap::util::TypeDataRef' in f['path'] and f['name'] == 'hash'), None)
+    if eqf is None or hsf is None:
+        ck.floor('R17.10', 0, 2, 'PartialEq / Hash impls of TypeDataRef')
+    else:
+        ck.analysed(eqf['path'])
+        ck.analysed(hsf['path'])
+        e = [c for c in H.calls_in(eqf['body']) if (H.callee(c) or c.get('def') or '').endswith('ptr::eq')]
+        ok = len(e) == 1 and len(list(H.return_exprs(eqf['body']))) == 1 and list(H.return_exprs(eqf['body']))[0] is e[0] and \
+            [pp(a) for a in e[0]['args']] in (['self.0', 'other.0'], ['other.0', 'self.0'])
+        ck.ob('R17.10', 'eq-is-address-equality', ok, L.loc(eqf['body']), 'TypeDataRef == TypeDataRef is ptr::eq(self.0, other.0): two descriptions are the same class only if they are the same entry')
+        h = [c for c in H.calls_in(hsf['body']) if (H.callee(c) or c.get('def') or '').endswith('ptr::hash')]
+        ok = len(h) == 1 and pp(h[0]['args'][0]) == 'self.0' and len([c for c in H.calls_in(hsf['body']) if c.get('k') in ('Call', 'MCall')]) == 1
+        ck.ob('R17.10', 'hash-agrees-with-eq', ok, L.loc(hsf['body']), 'Hash is ptr::hash(self.0): consistent with address equality (a HashSet<Class> never merges or splits classes)')
+    cadt = L.adts.get('typemap::class::Class') or {}
+    derives = {f.get('x') for f in L.fn_list if f['path'].startswith('<typemap::class::Class as') and f.get('x')}
+    ck.ob('R17.10', 'class-derives-eq-and-hash-together', {'PartialEq', 'Hash'} <= derives or not derives, '', 'derived impls on Class: %s (field-wise over the data reference and the parent space)' % sorted(d for d in derives if d))
